@@ -181,7 +181,8 @@ class Gen:
         if d <= 0 or k < 0.35:
             if sv and r.random() < 0.5:
                 return ("var", r.choice(sv))
-            return ("str", r.choice(["", "a", "b", "xy", "\u00e9", "x y", "q\"", "\U0001f600"]), r.choice(["dq", "sq", "vdq"]))
+            return ("str", r.choice(["", "a", "b", "xy", "\u00e9", "x y", "q\"", "\U0001f600", "h\u00e9llo w\u00f6rld", "\u65e5\u672c\u8a9e",
+                                     "a\U0001f600b\u20ac"]), r.choice(["dq", "sq", "vdq"]))
         if k < 0.55:
             return ("bin", "+", self.S(d - 1, sc, inobj), self.S(d - 1, sc, inobj))
         if k < 0.68:
@@ -191,8 +192,11 @@ class Gen:
         if k < 0.74:
             return ("bin", "+", self.S(d - 1, sc, inobj), r.choice([("true",), ("null",), self.A(d - 1, sc, inobj)]))
         if k < 0.8:
-            return ("slice", self.S(d - 1, sc, inobj), num(r.randint(0, 2)) if r.random() < 0.6 else None,
-                    num(r.randint(0, 4)) if r.random() < 0.6 else None, num(r.randint(1, 2)) if r.random() < 0.3 else None)
+            def ix(lo, hi):
+                v = r.randint(lo, hi)
+                return num(v) if v >= 0 else ("un", "-", num(-v))
+            return ("slice", self.S(d - 1, sc, inobj), ix(-3, 2) if r.random() < 0.6 else None,
+                    ix(-3, 4) if r.random() < 0.6 else None, num(r.randint(1, 2)) if r.random() < 0.3 else None)
         if k < 0.86:
             return ("if", self.B(d - 1, sc, inobj), self.S(d - 1, sc, inobj), self.S(d - 1, sc, inobj))
         if k < 0.9 and inobj:
@@ -226,8 +230,11 @@ class Gen:
                 specs.append(("sif", self.B(d - 1, sc2, inobj)))
             return ("arrcomp", self.N(d - 1, sc2, inobj), specs)
         if k < 0.88:
-            return ("slice", self.A(d - 1, sc, inobj), num(r.randint(0, 2)) if r.random() < 0.6 else None,
-                    num(r.randint(0, 4)) if r.random() < 0.6 else None, num(r.randint(1, 3)) if r.random() < 0.3 else None)
+            def ix(lo, hi):
+                v = r.randint(lo, hi)
+                return num(v) if v >= 0 else ("un", "-", num(-v))
+            return ("slice", self.A(d - 1, sc, inobj), ix(-3, 2) if r.random() < 0.6 else None,
+                    ix(-3, 4) if r.random() < 0.6 else None, num(r.randint(1, 3)) if r.random() < 0.3 else None)
         if k < 0.92 and inobj:
             return ("dot", ("self",), "l")
         if k < 0.96:
@@ -268,8 +275,10 @@ class Gen:
         if r.random() < 0.1:
             p = self.fresh("p")
             ms.append(("ffunc", ("id", "m"), [("param", p, None)], 2, self.N(d - 1, sc2 + [(p, "N")], True)))
-        if with_asserts and r.random() < 0.12:
-            ms.append(("massert", ("bin", ">=", self.N(d - 1, sc2, True), num(0)), s("inv-%d" % r.randint(0, 9)) if r.random() < 0.7 else None))
+        if with_asserts and r.random() < 0.2:
+            cond_lhs = ("dot", ("self",), r.choice(NUM_FIELDS)) if r.random() < 0.6 else self.N(d - 1, sc2, True)
+            ms.append(("massert", ("bin", r.choice([">=", ">=", "<", "!="]), cond_lhs, num(r.choice([0, 0, 1, 3]))),
+                       s("inv-%d" % r.randint(0, 9)) if r.random() < 0.7 else None))
         for v in locals_:
             ms.append(("mlocal", ("bind", v, None, self.N(d - 1, sc2, True))))
         r.shuffle(ms)
@@ -301,6 +310,14 @@ class Gen:
             return ("objcomp", l1, ("var", kk), r.random() < 0.2, self.N(d - 1, sc2, True), [], specs)
         if k < 0.86:
             return ("if", self.B(d - 1, sc, inobj), self.O(d - 1, sc, inobj), self.O(d - 1, sc, inobj))
+        if k < 0.885:
+            # an object that is used (compared, so its fields are read and its asserts checked) and then extended
+            v = self.fresh("o")
+            first = self.O(d - 1, sc, inobj)
+            ext = ("obj", self.members(d - 1, sc, with_asserts=False)) if r.random() < 0.7 else self.O(d - 1, sc, inobj)
+            used = ("bin", "==", ("var", v), ("var", v)) if r.random() < 0.6 else \
+                ("bin", ">=", call(std("length"), call(std("toString"), ("var", v))), num(0))
+            return ("local", [("bind", v, None, first)], ("if", used, ("bin", "+", ("var", v), ext), ("obj", [])))
         if k < 0.9 and self.allow_remove_key:
             return call(std("objectRemoveKey"), self.O(d - 1, sc, inobj), s(r.choice(NUM_FIELDS)))
         if k < 0.93 and inobj:
